@@ -255,9 +255,11 @@ def r2(ctx):
     g = R.Geo(P)
     # ---- check_mask
     ctx.used_body(CHECK_MASK)
-    eng = T.Engine(P, opaque=LOOKUPS | {"chess_bitboard::BitBoard::pop_unchecked"})
+    eng = T.Engine(P, opaque=LOOKUPS | {"chess_bitboard::BitBoard::pop_unchecked", KING_SQ})
     lv = eng.tabulate(CHECK_MASK)
     board, ksq = ("obj", ("param", 0, "a0")), ("param", 1, "a1")
+    # the king square: handed in by the caller, or looked up by check_mask itself (own king of the side to move)
+    kings = ([ksq] if P.body(CHECK_MASK)["argc"] == 2 else []) + [("app", KING_SQ, (("refv", board), fld(board, "turn")))]
     ch = fld(board, "checkers")
     got = {}
     for lf in lv:
@@ -271,7 +273,7 @@ def r2(ctx):
         w = unbb(r)
         parts = acnorm(w)
         btw = [x for x in subterms(w) if x[0] == "app" and x[1] == "chess_lookup::between"]
-        ok_true = (parts[0] == "ac" and parts[1] == "BitOr" and acnorm(word(ch)) in parts[2] and len(btw) == 1 and btw[0][2][0] == ksq
+        ok_true = (parts[0] == "ac" and parts[1] == "BitOr" and acnorm(word(ch)) in parts[2] and len(btw) == 1 and btw[0][2][0] in kings
                    and btw[0][2][1][0] == "app" and btw[0][2][1][1].endswith("pop_unchecked"))
     ctx.ob("check_mask in check", ok_true, f"check_mask::<true> = {T.show(r)[:160] if r else None}; expected between(king, the checker) | checkers", site=P.body(CHECK_MASK).get("def_span"))
     ctx.ob("check_mask not in check", got.get(0) == bb(T.I((1 << 64) - 1, "u64")), f"check_mask::<false> = {T.show(got.get(0))[:80] if got.get(0) else None}; expected the full board",
@@ -323,7 +325,7 @@ def r2(ctx):
                 any(t[0] == "bin" and t[1] == "Eq" and canon(t[3]) == canon(mv) and t[2] == T.I(0, "u64") and v == 0 for t, v in lf.cond)
             if is_unpinned_loop:
                 seen["unpinned"] += 1
-                cm_ok = len(cms) == 1 and cms[0][2][0] in (("refv", board), board) and cms[0][2][1] == ksq
+                cm_ok = len(cms) == 1 and cms[0][2][0] in (("refv", board), board) and (len(cms[0][2]) == 1 or cms[0][2][1] == ksq)
                 ok = cm_ok and canon(mv) == canon(C.AND(pseudo, word(cms[0]))) and not lines and src[0] == "vfield" and nonempty
                 ctx.ob(f"{ty} unpinned#{seen['unpinned']}", ok, f"{ty} (not pinned): destinations {T.show(mv)[:200]}; expected pseudo_legals(src, turn, occupancy, mask) & check_mask(board, own king), "
                        f"skipped when empty (non-empty test present: {nonempty})", site=site, sample={"domain": "own & !pinned", "moves": "pseudo & check_mask"})
